@@ -48,6 +48,9 @@ class Target:
     await_ext: int | None = None        # `await <expr>` of something that is not itself an external call -> this external, [expr]
     callables: dict[str, int] = field(default_factory=dict)     # parameter / local that is called: name -> external, args [callee, *args]
     self_names: tuple[str, ...] = ("self", "cls")
+    expr_externals: dict[str, tuple[int, list[str]]] = field(default_factory=dict)
+    # source text of a whole expression (e.g. a generator expression over other objects) -> (external number, argument sources)
+    inline_self: set[str] = field(default_factory=set)   # methods inlined when called on `self` even if listed in method_externals
     with_externals: dict[str, tuple[int, int]] = field(default_factory=dict)   # receiver text of a `with` -> (enter, exit) externals
     closure: list[str] = field(default_factory=list)   # free variables of a nested function (the enclosing function's parameters), numbered first
     part: str | None = None             # "loop_body": the function must be `<name> = <int>; while True: <body>` – translate <body> only
@@ -126,6 +129,14 @@ class Tr:
 
     # ---- expressions: returns (pre-statements, expression)
     def expr(self, n: ast.expr) -> tuple[list[str], str]:
+        if self.t.expr_externals and not isinstance(n, (ast.Constant, ast.Name)) and self.src(n) in self.t.expr_externals:
+            num, spec = self.t.expr_externals[self.src(n)]
+            pres, es = [], []
+            for a in spec:
+                p_, e_ = self.expr(ast.parse(a.lstrip("$"), mode="eval").body)
+                pres += p_
+                es.append(e_)
+            return pres, f"(Expr.call {num} {self.lst(es)})"
         if isinstance(n, ast.Constant):
             v = n.value
             if v is None:
@@ -369,7 +380,8 @@ class Tr:
             raise Unrecognised(f"call of {f.id}")
         if isinstance(f, ast.Attribute):
             recv, meth = self.src(f.value), f.attr
-            if recv in self.t.self_names and (recv, meth) not in self.t.externals and meth not in self.t.method_externals:
+            if recv in self.t.self_names and (recv, meth) not in self.t.externals and (
+                    meth not in self.t.method_externals or meth in self.t.inline_self):
                 return self.inline(n, meth)
             if recv in self.alias and (self.alias[recv], meth) in self.t.externals:
                 num, spec = self.t.externals[(self.alias[recv], meth)]
